@@ -104,8 +104,13 @@ func FromStatus(st *status.Status) *ConduitError {
 		// versions). For an unknown reason we fall back to the wire status' code so
 		// the error still round-trips. If a client and server ever disagree on a
 		// registered reason's category, the local mapping wins by design.
+		//
+		// CodeUnknown's reason is the exception: it means "reason unknown", and
+		// the sender may have determined the category separately (see
+		// WithUnknownReason, and the no-detail path below). The wire status' code
+		// is that category, so it is kept rather than coarsened to Internal.
 		code, ok := LookupCode(info.GetReason())
-		if !ok {
+		if !ok || code == CodeUnknown {
 			code = Code{reason: info.GetReason(), grpcCode: st.Code()}
 		}
 
